@@ -60,16 +60,41 @@ func Normalise(frame []byte) (msg []byte, ok bool) {
 func RunRaw(chunks []Chunk, o Opts) (obs []Obs, failed string) {
 	failed = ev.Try(func() {
 		cfg := drivers.ListenConfig{ActiveSense: o.ActiveSense, TimeCode: o.TimeCode, SysEx: o.SysEx, SysExBufferSize: o.BufSize}
+		// one case in three: the buffer size is configured through the reader's exported field
+		// after construction (before any data arrives) instead of through the ListenConfig
+		late := variant(chunks, o)%3 == 1
+		if late {
+			cfg.SysExBufferSize = o.BufSize + 7
+		}
 		rd := drivers.NewReader(cfg, func(b []byte, ts int32) {
 			if m, ok := Normalise(append([]byte{}, b...)); ok {
 				obs = append(obs, Obs{m, ts})
 			}
 		})
+		if late {
+			rd.SysExBufferSize = o.BufSize
+			if o.BufSize == 0 {
+				rd.SysExBufferSize = 1024 // the documented default
+			}
+		}
 		for _, c := range chunks {
 			rd.EachMessage(c.Data, c.Delta)
 		}
 	})
 	return
+}
+
+// variant derives a small number from a case, used to pick among equivalent ways of
+// configuring a listener (a pure function of the case, so replays are exact).
+func variant(chunks []Chunk, o Opts) int {
+	v := len(chunks) + int(o.BufSize)
+	for _, c := range chunks {
+		v += len(c.Data) + int(c.Delta)
+	}
+	if v < 0 {
+		v = -v
+	}
+	return v
 }
 
 // SyncByte is sent first on the loopback; time stamps are reported relative to it because
@@ -118,6 +143,18 @@ func (l *Loop) Run(chunks []Chunk, o Opts) (obs []Obs, failed string) {
 		}
 		if o.BufSize != 0 {
 			opts = append(opts, midi.SysExBufferSize(o.BufSize))
+		}
+		// the options are independent of each other: any order must configure the same listener
+		switch v := variant(chunks, o) % 4; v {
+		case 1:
+			for i, j := 0, len(opts)-1; i < j; i, j = i+1, j-1 {
+				opts[i], opts[j] = opts[j], opts[i]
+			}
+		case 2, 3:
+			if n := len(opts); n > 1 {
+				k := v - 1
+				opts = append(opts[k%n:len(opts):len(opts)], opts[:k%n]...)
+			}
 		}
 		var all []Obs
 		stopped := false
